@@ -10,7 +10,7 @@
 //	     keep=1: sent by the link service of the previous SEND of the case (seq = that service's own counter))
 //	SENDZ mtu=.. frag=.. ifi=.. seq=.. tok=.. inface=.. mark=.. n=<len>                            (wire = pattern(n): byte i = i*7+n mod 251)
 //	  FR <hex> | FO <hex>     frame accepted / refused (larger than the MTU) by the transport   (after SEND)
-//	  FZ <len>:<md5/8> ... | OZ <len>:<md5/8> ...                                               (after SENDZ)
+//	  FZ <len>:<md5/8> ... | OZ <len>:<md5/8> ...  [FR <hex> ... for a sample]                     (after SENDZ)
 //	  NS <dec>                sender's nextSequence afterwards;   SP  = the sender panicked
 //	RECV <frame hex>                                                                           (real handleIncomingFrame)
 //	  DEC <decode>            spec.ReadPacket of the frame as seen by the harness: E | P <i> <d> <lp>
@@ -360,6 +360,13 @@ func runLpCase(w *bufio.Writer, c *lpCase, r *rand.Rand) {
 			}
 			if o.kind == "SENDZ" {
 				fmt.Fprintf(w, "FZ %s\nOZ %s\n", sigList(st.Frames), sigList(st.Dropped))
+				// the frames themselves for the smaller packets and a sample of the large ones: the runner's peer reassembles them
+				// (projected observables: the split the implementation chose is followed, not prescribed)
+				if len(st.Dropped) == 0 && (o.n <= 2500 || k%4 == 0) {
+					for _, f := range st.Frames {
+						fmt.Fprintf(w, "FR %s\n", hx(f))
+					}
+				}
 			} else {
 				for _, f := range st.Frames {
 					fmt.Fprintf(w, "FR %s\n", hx(f))
